@@ -127,6 +127,10 @@ func VerifAPIIsolation() {
 	quiet := d9.GetPegNetRateAverages(ctx, 10).(map[fat2.PTicker]uint64)
 	vrt.Assert("C18.served-requests-do-not-change-what-sync-computes",
 		served[fat2.PTickerUSD] == quiet[fat2.PTickerUSD] && served[fat2.PTickerXBT] == quiet[fat2.PTickerXBT])
+	// read as C01: a daemon that answered API requests and one that did not replay the same chain to
+	// the same ledger - what the sync loop computes from must not depend on the requests served
+	vrt.Assert("C01.what-sync-computes-does-not-depend-on-api-requests-served",
+		served[fat2.PTickerUSD] == quiet[fat2.PTickerUSD] && served[fat2.PTickerXBT] == quiet[fat2.PTickerXBT])
 
 	// ---- (c) whatever the read API was asked, it leaves nothing behind that stops the sync loop:
 	// after any request - found or not found - the next block must still commit (in SQLite's
